@@ -16,8 +16,8 @@ def cfg():
     return 'SPECIFICATION Spec\nINVARIANT AliasSameValue\nPROPERTY HeapImmutable\nCHECK_DEADLOCK FALSE\n'
 
 
-def heap_config(name, leaves, ops, maxheap, maxlen):
-    return dict(name=name, module='PregexHeap', cfg=cfg(), workers=8, invariants=['AliasSameValue', 'HeapImmutable'],
+def heap_config(name, leaves, ops, maxheap, maxlen, sample=1):
+    return dict(name=name, module='PregexHeap', cfg=cfg(), workers=8, invariants=['AliasSameValue', 'HeapImmutable'], sample=sample,
                 params={'min_len': maxlen},
                 defs={'HLeaves': set(leaves), 'HOps': set(ops), 'MaxHeap': maxheap, 'MaxLen': maxlen})
 
@@ -33,8 +33,8 @@ def configs(tier, seed):
                 heap_config('assertions-len4', {'a', 'anchor', 'empty'}, {'followed_by', 'not_preceded_by', 'match_at_line_start', 'enclose', 'one_or_more', 'match'}, 4, 4)]
     return [heap_config('grouping-history-len5', {'ab', 'alt', 'altdup', 'a'}, {'group_ci', 'group', 'optional', 'mul', 'add', 'exactly', 'match', 'compile'}, 5, 5),
             heap_config('pre-ops-len5', {'a', 'ab', 'empty', 'alt', 'dollar'},
-                        {'concat', 'add', 'either', 'optional', 'exactly', 'capture', 'group', 'compile', 'match'}, 5, 5),
-            heap_config('alias-cache-len6', {'a', 'empty', 'dollar'}, {'concat', 'exactly', 'at_most', 'mul', 'compile', 'get_compiled', 'match'}, 4, 6),
+                        {'concat', 'add', 'either', 'optional', 'exactly', 'capture', 'group', 'compile', 'match'}, 5, 5, sample=2),
+            heap_config('alias-cache-len6', {'a', 'empty', 'dollar'}, {'concat', 'exactly', 'at_most', 'mul', 'compile', 'get_compiled', 'match'}, 4, 6, sample=4),
             heap_config('classes-len5', {'from', 'between', 'a', 'aei', 'ce'}, {'or', 'sub', 'invert', 'concat', 'optional', 'compile', 'match'}, 6, 5),
             heap_config('captures-refusals-len5', {'a', 'anchor', 'ab', 'alt'}, {'capture_n', 'capture_m', 'add', 'one_or_more', 'exactly', 'mul', 'refused', 'match', 'group'}, 6, 5),
             heap_config('assertions-len5', {'a', 'anchor', 'empty', 'alt'}, {'followed_by', 'not_preceded_by', 'match_at_line_start', 'enclose', 'one_or_more', 'match', 'group'}, 5, 5)]
@@ -79,7 +79,7 @@ def simulate_histories(tier, seed, seeds, res):
 def check_C20(tier_arg=None):
     tier, seed = tier_and_seed(tier_arg)
     t0 = time.time()
-    seeds = sorted({0, 1, seed % (2 ** 32)}) if tier == 'quick' else list(range(8))
+    seeds = sorted({0, 1, seed % (2 ** 32)}) if tier == 'quick' else [0, 1, 2, 3]
     res = run_generated(configs(tier, seed), 'harness.judge_heap.judge', {'prop': 'C20'}, seeds=seeds, mode='all', batch=50)
     nsim = simulate_histories(tier, seed, seeds, res)
     st = res.agg.stats
